@@ -27,12 +27,17 @@ RootEnumNeedsInnerName(t) ==
 (* known finding: an untagged enum { Unit, Struct{..} } is emitted by schemars as anyOf[null, object];
    as a named definition typify renders the Option wrapper newtype and the inner struct under the
    same name (the inner type is renamed only on the ["T","null"] path): duplicate item *)
-Known(e, d) == { k \in {"C04-root-enum-without-name-for-inline-type", "C04-named-anyof-null-object-duplicate-name"} :
+Known(e, d) == { k \in {"C04-root-enum-without-name-for-inline-type", "C04-named-anyof-null-object-duplicate-name",
+                          "C04-untagged-overlapping-string-variants"} :
                    CASE k = "C04-root-enum-without-name-for-inline-type" ->
                           d = "C04/NotGenerated" /\ e.route = "root" /\ RootEnumNeedsInnerName(e)
                      [] k = "C04-named-anyof-null-object-duplicate-name" ->
                           d = "C04/NotGenerated" /\ e.route = "defs" /\ e.kind = "enum" /\ e.tagging = "untagged"
-                          /\ e.vkinds = <<"unit", "struct">> }
+                          /\ e.vkinds \in { <<"unit", "struct">>, <<"struct", "unit">> }
+                     [] k = "C04-untagged-overlapping-string-variants" ->
+                          (* reported at the exchange events of such a type: cur is the type event *)
+                          d = "C04/SerializationOfOriginValueRejected" /\ cur.kind = "enum" /\ cur.tagging = "untagged"
+                          /\ { cur.vtys[i] : i \in DOMAIN cur.vtys } = {"Option<String>", "String"} }
 Bad(e, d) == PrintT(<<"BAD", ToJson([l |-> l, case |-> e.case, prop |-> "C04", diag |-> d, route |-> e.route,
                                      known |-> Known(e, d), ev |-> e])>>)
 
